@@ -119,7 +119,11 @@ impl SizesInfo {
         let block_num = uncompressed_pos / u64::from(UNCOMPRESSED_DATA_SIZE);
         let index = usize::try_from(block_num)
             .map_err(|_| io::Error::new(io::ErrorKind::InvalidData, "Integer conversion failed"))?;
-        Ok(self.compressed_sizes[index])
+        // The footer may be inconsistent (crafted or corrupted archive)
+        self.compressed_sizes
+            .get(index)
+            .copied()
+            .ok_or(Error::DeserializationError)
     }
 
     /// Maximum uncompressed available position
